@@ -219,8 +219,14 @@ def gen_exh(ctx, depth, ranges):
 NEXH = 31       # Len(Gen_Ex!ExhCmds)
 
 
-def ex_check(ctx, own, profile, nscripts, nsteps, rule, assumptions, module="Gen_Ex", exh=False):
+def ex_check(ctx, own, profile, nscripts, nsteps, rule, assumptions, module="Gen_Ex", exh=False, mc_depth=0):
     """the common body of the ex-mode behaviour checks"""
+    mc = None
+    if mc_depth:
+        cfg = ctx.path("cfg", "mc_ex.cfg")
+        with open(cfg, "w") as f:
+            f.write("SPECIFICATION MCSpec\nCONSTANTS MaxSteps = %d\nINVARIANT Inv\nPROPERTY StepProps\nVIEW MCView\nCHECK_DEADLOCK FALSE\n" % mc_depth)
+        mc = tlc_model(ctx, "MC_Ex", cfg, timeout=10000, heap="24g")
     scripts = gen_scripts(ctx, module, "corpus", 1, 1) + gen_scripts(ctx, module, profile, nscripts, nsteps)
     nexh = 0
     if exh:
@@ -256,10 +262,14 @@ def ex_check(ctx, own, profile, nscripts, nsteps, rule, assumptions, module="Gen
         samples.append({"seed": sc["seed"], "script": [txt(s["typed"]) for s in sc["steps"][:12]],
                         "final_text_expected": [txt(x) for x in sc["steps"][min(11, len(sc["steps"]) - 1)]["exp"]["lines"]],
                         "commands_compared": r["checked"]})
-    cov = {"states": nthm, "transitions": nthm, "traces_validated_against_impl": len(results), "samples": samples,
+    if mc:
+        st["mc_ex"] = {"max_lines": mc_depth, "states_generated": mc["generated"], "distinct_states": mc["distinct"], "wall_s": round(mc["wall"])}
+    cov = {"states": nthm + (mc["distinct"] if mc else 0), "transitions": nthm + (mc["generated"] if mc else 0),
+           "traces_validated_against_impl": len(results), "samples": samples,
            "evaluations": st["commands"], "distinct_nontrivial": changed, "rule": rule, "stats": st,
            "commands_of_this_property": own_cmds,
-           "explanation": "states/transitions = prompt lines on which TLC evaluated Thm (rejection leaves the text alone, one undo "
+           "explanation": "states/transitions = states of MC_Ex explored by TLC (every history of mc_ex.max_lines prompt lines over "
+                          "Gen_Ex!ExhCmds with Frame, Rejected, MarkStays, OneStep, Inv) plus prompt lines on which TLC evaluated Thm (rejection leaves the text alone, one undo "
                           "step per line, redo inverse, scalar values only, ghost stacks consistent); every line's expected "
                           "state (text, current line, output, registers, solid marks, status) was compared with the traced binary"}
     return ctx.finish("model_checking", cov, assumptions)
